@@ -112,7 +112,7 @@ Section Term.
       rewrite Hv. cbn [bind].
       destruct (IH s' (fun x Hx => Hord x (or_intror Hx)) HS' HN') as [s1 [Hf [HS1 [HN1 Hcase1]]]].
       exists s1. split; [exact Hf|]. split; [exact HS1|]. split; [exact HN1|].
-      destruct Hcase as [[M1 [I1 [C1 B1]]]|[M1 [B1 [Hmp P1]]]]; destruct Hcase1 as [[M2 [I2 [C2 B2]]]|[M2 [B2 [Hmp2 P2]]]].
+      destruct Hcase as [[M1 [I1 [C1 B1]]]|[M1 [B1 [Hmp [P1 _]]]]]; destruct Hcase1 as [[M2 [I2 [C2 B2]]]|[M2 [B2 [Hmp2 P2]]]].
       + left. repeat split; congruence.
       + right. split; [lia|]. split; [exact B2|]. split; [exact Hmp2|]. rewrite <- I1. exact P2.
       + right. split; [lia|]. split; [congruence|]. split; [exact Hmp|]. rewrite I2. exact P1.
@@ -326,5 +326,88 @@ Section Term.
     - intros u Hu. apply Hnames. apply (shuffled_in_names g perms order Hshuf u Hu).
     - unfold SInvS. cbn [ls_partition ls_inner ls_node2com]. apply SInv_start; assumption.
     - exact HNI.
+  Qed.
+
+  (* ---- an improving phase leaves an empty community slot: the next level has fewer nodes ---- *)
+  Definition EInv (s : lstate) : Prop :=
+    (ls_improved s = false /\ ls_inner s = singletons /\ ls_node2com s = map (fun k => (k, k)) (seq 0 n)) \/
+    (ls_improved s = true /\ exists c, nth_error (ls_inner s) c = Some []).
+
+  Lemma visit_E : forall s u s', In u (seq 0 n) -> SI s -> NI s -> EInv s -> vis s u = Ok s' ->
+    SI s' /\ NI s' /\ EInv s'.
+  Proof.
+    intros s u s' Hu HS HN HE Hv.
+    destruct (visit_num g W Hmulti Hreal n Hnames Hnn m res Hm Hres attr_disj s u Hu HS HN)
+      as [s2 [Hv2 [HS2 [HN2 Hcase]]]].
+    rewrite Hv in Hv2. inversion Hv2. subst s2. split; [exact HS2|]. split; [exact HN2|].
+    destruct Hcase as [[_ [I1 [C1 B1]]]|[_ [B1 [_ [_ [own [bc [iO [C [v [Hown [Hne [HO [HC [Hv' HN']]]]]]]]]]]]]]].
+    - destruct HE as [[E1 [E2 E3]]|[E1 E2]]; [left | right]; rewrite ?B1, ?I1, ?C1; auto.
+    - right. split; [exact B1|]. destruct HE as [[E1 [E2 E3]]|[E1 [c0 Hc0]]].
+      + exists own. rewrite HN'. rewrite (proj2 (Nat.eqb_neq own bc)) by congruence. rewrite Nat.eqb_refl.
+        rewrite E3, lookup_map_diag in Hown. destruct (mem Nat.eqb u (seq 0 n)); [|discriminate].
+        inversion Hown. subst own. rewrite E2 in HO. unfold singletons in HO. rewrite nth_error_map_seq in HO.
+        destruct (Nat.ltb u n); [|discriminate]. inversion HO. subst iO. cbn. rewrite Nat.eqb_refl. reflexivity.
+      + exists c0. rewrite HN'.
+        assert (Hb : c0 <> bc) by (intro E; subst c0; rewrite HC in Hc0; inversion Hc0; subst C; contradiction).
+        assert (Ho : c0 <> own).
+        { intro E. subst c0. rewrite HO in Hc0. inversion Hc0. subst iO.
+          apply (si_L1 _ _ _ _ _ HS) in Hown. destruct Hown as [l [Hl Hin]]. rewrite HO in Hl. inversion Hl. subst l. contradiction. }
+        rewrite (proj2 (Nat.eqb_neq c0 bc) Hb), (proj2 (Nat.eqb_neq c0 own) Ho). exact Hc0.
+  Qed.
+
+  Lemma sweep_E : forall order s s', (forall u, In u order -> In u (seq 0 n)) -> SI s -> NI s -> EInv s ->
+    ofold vis order s = Ok s' -> SI s' /\ NI s' /\ EInv s'.
+  Proof.
+    induction order as [|u t IH]; intros s s' Hord HS HN HE H; cbn [ofold] in H.
+    - inversion H. subst. auto.
+    - apply bind_ok in H. destruct H as [s1 [H1 H]].
+      destruct (visit_E s u s1 (Hord u (or_introl eq_refl)) HS HN HE H1) as [HS1 [HN1 HE1]].
+      apply (IH s1 s' (fun x Hx => Hord x (or_intror Hx)) HS1 HN1 HE1 H).
+  Qed.
+
+  Lemma sweeps_E : forall fuel order s s', (forall u, In u order -> In u (seq 0 n)) -> SI s -> NI s -> EInv s ->
+    sweeps fuel g m res (successors g) (predecessors g) order s = Ok s' -> EInv s'.
+  Proof.
+    induction fuel as [|f IH]; intros order s s' Hord HS HN HE H; cbn [sweeps] in H; [discriminate|].
+    apply bind_ok in H. destruct H as [s1 [H1 H]]. fold (reset s) in H1.
+    assert (HSr : SI (reset s)) by exact HS. assert (HNr : NI (reset s)) by exact HN.
+    assert (HEr : EInv (reset s)) by exact HE.
+    destruct (sweep_E order (reset s) s1 Hord HSr HNr HEr H1) as [HS1 [HN1 HE1]].
+    destruct (Nat.eqb (ls_moves s1) 0); [inversion H; subst; exact HE1|].
+    apply (IH order s1 s' Hord HS1 HN1 HE1 H).
+  Qed.
+
+  Lemma filter_len_le : forall {X} (p : X -> bool) l, (length (filter p l) <= length l)%nat.
+  Proof. intros X p l. induction l as [|x t IH]; cbn; [lia|]. destruct (p x); cbn; lia. Qed.
+
+  Lemma filter_nonempty_shorter : forall (I : list (list nat)) c, nth_error I c = Some [] ->
+    (length (filter nonempty I) < length I)%nat.
+  Proof.
+    induction I as [|x t IH]; intros c Hc; [destruct c; discriminate|]. destruct c as [|c]; cbn in Hc.
+    - inversion Hc. subst x. cbn [filter nonempty length]. pose proof (filter_len_le nonempty t). lia.
+    - cbn [filter length]. specialize (IH c Hc). destruct (nonempty x); cbn [length]; lia.
+  Qed.
+
+  Theorem compute_one_level_shrinks : forall fuel partition perms p2 i2 tie,
+    length partition = n ->
+    (forall c p, nth_error partition c = Some p -> NoDup p /\ forall x, In x p <-> In x (attr_of g c)) ->
+    compute_one_level fuel g m partition res perms = Ok (p2, i2, true, tie) ->
+    (length i2 < n)%nat.
+  Proof.
+    intros fuel partition perms p2 i2 tie Hlen Hpart H. unfold compute_one_level in H.
+    apply bind_ok in H. destruct H as [s [Hs H]]. inversion H as [[E1 E2 E3 E4]]. clear H.
+    destruct (compute_one_level_state_inv fuel partition perms s Hlen Hpart Hs) as [_ [HN _]].
+    unfold compute_one_level_state in Hs.
+    destruct (degree_info_start partition Hlen) as [di [Hdi HNI]]. rewrite Hdi in Hs. cbn [bind] in Hs.
+    apply bind_ok in Hs. destruct Hs as [order [Hshuf Hs]].
+    unfold map_node_names_to_hashsets in Hs. fold (gnames g) in Hs.
+    rewrite (sort_by_perm_seq (gnames g) n names_perm) in Hs.
+    apply sweeps_E in Hs.
+    - destruct Hs as [[Hf _]|[_ [c Hc]]]; [congruence|].
+      rewrite <- (ni_len _ _ _ _ HN). apply (filter_nonempty_shorter _ c Hc).
+    - intros u Hu. apply Hnames. apply (shuffled_in_names g perms order Hshuf u Hu).
+    - unfold SInvS. cbn [ls_partition ls_inner ls_node2com]. apply SInv_start; assumption.
+    - exact HNI.
+    - left. cbn [ls_improved ls_inner ls_node2com]. repeat split; reflexivity.
   Qed.
 End Term.
